@@ -148,10 +148,23 @@ RunResult run_once(const Scenario& sc, const SimSetup& s, long k, long* nChecks,
       if (!pe.M.empty()) (void)pe.M.back().WithContext(ctx).Status();
     }
     const uint32_t idCounterBefore = Manifold::Impl::meshIDCounter_;
-    std::set<uint64_t> forcedIds;
+    // Handles that are copies of one another share one lazy node: forcing any of them evaluates it
+    // for all of them. group[i] identifies the node behind pool object i.
+    std::vector<uint64_t> group(e.M.size());
+    uint64_t nextGroup = 1;
+    for (auto& gq : group) gq = nextGroup++;
+    std::set<uint64_t> forcedGroups;
     for (auto& op : sc.expr) {
+      size_t src = (size_t)-1, dst = (size_t)-1;
+      if (!e.M.empty() && (op.name == "copy" || op.name == "assign")) {
+        src = e.mi(op.name == "assign" ? op.arg(1) : op.arg(0));
+        if (op.name == "assign") dst = e.mi(op.arg(0));
+      }
+      size_t forcedIdx = (!e.M.empty() && op.name == "force") ? e.mi(op.arg(0)) : (size_t)-1;
       exec(e, op);
-      if (op.name == "force" && !e.used.empty()) forcedIds.insert(e.used.back());
+      while (group.size() < e.M.size()) group.push_back(op.name == "copy" && src < group.size() ? group[src] : nextGroup++);
+      if (dst != (size_t)-1 && src < group.size()) group[dst] = group[src];
+      if (forcedIdx < group.size()) forcedGroups.insert(group[forcedIdx]);
     }
     g_sampleCtx = &ctx;
     g_sampleClause = &rr.observerClause;
@@ -200,7 +213,7 @@ RunResult run_once(const Scenario& sc, const SimSetup& s, long k, long* nChecks,
     // never a partially reduced tree.
     for (size_t i = nOperands; i < e.M.size(); i++) {
       rr.intermediates.push_back(solid_of(e.M[i]));
-      rr.wasForced.push_back(forcedIds.count(e.idM[i]) ? 1 : 0);
+      rr.wasForced.push_back(i < group.size() && forcedGroups.count(group[i]) ? 1 : 0);
     }
     // rebuild from the operands with a fresh context
     if (k > 0) {
